@@ -54,10 +54,14 @@ func explains(m *Model, sh Shape, v Violation, extraInc int) bool {
 		return v.Clause == ClAfterCompletion && (v.Call == CComplete || v.Call == CError) ||
 			v.Clause == ClDelivery && (v.Call == "unexpected:"+CComplete || v.Call == "unexpected:"+CError)
 	case F20:
-		return v.Clause == ClTrigCounter && v.Got > v.Want && v.Got-v.Want <= extraInc
+		// (once one unpaired Inc has happened the executor's own waiting on counter totals is
+		// off, so later start-ups can race for real: any surplus is attributed)
+		return v.Clause == ClTrigCounter && v.Got > v.Want
 	case FStaleDone, FStaleStart:
 		if sh.ExtraInc {
-			return v.Clause == ClTrigCounter && v.Got > v.Want && v.Got-v.Want <= extraInc
+			// the stale goroutine marks the victim initialised and reports it: the victim's own
+			// Inc/Dec pairing is off in either direction from then on
+			return v.Clause == ClTrigCounter && v.Got != v.Want
 		}
 		// the victim trigger is torn down behind the model's back: everything that follows about
 		// the registry, the counters and the victim's subscribers is off
